@@ -40,8 +40,12 @@ type MetaVec = <<CachedFileList as Deref>::Target as Deref>::Target;
 /// `object_store::ObjectMeta`
 type ObjectMeta = <MetaVec as IntoIterator>::Item;
 
-fn mk_meta(path: &str, size: u64, mtime_s: u64, e_tag: Option<String>, version: Option<String>) -> ObjectMeta {
-    ObjectMeta { location: path.into(), last_modified: (UNIX_EPOCH + Duration::from_secs(mtime_s)).into(), size, e_tag, version }
+/// `mtime_ticks` are 1/16 s ticks (plus a few nanoseconds): successive rewrites of a file usually
+/// fall into the SAME wall-clock second and differ only in the sub-second part, which is what local
+/// file systems and in-memory stores produce — validity must not be decided at coarser granularity.
+fn mk_meta(path: &str, size: u64, mtime_ticks: u64, e_tag: Option<String>, version: Option<String>) -> ObjectMeta {
+    let t = UNIX_EPOCH + Duration::from_secs(1_700_000_000 + mtime_ticks / 16) + Duration::from_nanos((mtime_ticks % 16) * 62_500_000 + mtime_ticks % 7);
+    ObjectMeta { location: path.into(), last_modified: t.into(), size, e_tag, version }
 }
 
 // ---------------------------------------------------------------------------------------
